@@ -94,4 +94,6 @@ let run (f : string list) : string =
        | Some rs -> String.concat " " (List.map show_sib_result rs))
   | _ -> "?"
 
+(* long lists and deep recursion: a large minor heap avoids rescanning the stack at every minor collection *)
+let () = Gc.set { (Gc.get ()) with Gc.minor_heap_size = 8 * 1024 * 1024; Gc.space_overhead = 200 }
 let () = main_loop run
